@@ -41,10 +41,13 @@ def make_ops(rng, n, pinned=(), blocks=False, chunks=False):
     if blocks or chunks:
         bs = block_sizes(n) if blocks else [None]
         cs = block_sizes(n) if chunks else [None]
-        for b in bs:
-            for c in cs:
-                ops.append({"tag": "block", "idx": full, "block": b, "chunk": c})
-        ops.append({"tag": "block-perm", "idx": perm, "block": rng.choice(bs), "chunk": rng.choice(cs)})
+        combos = [(b, None) for b in bs if b is not None] + [(None, c) for c in cs if c is not None]
+        if blocks and chunks:
+            combos += [(rng.choice(bs), rng.choice(cs)) for _ in range(3)] + [(1, 1), (n, n)]
+        for b, c in combos:
+            ops.append({"tag": "block", "idx": full, "block": b, "chunk": c})
+        b, c = rng.choice(combos)
+        ops.append({"tag": "block-perm", "idx": perm, "block": b, "chunk": c})
     return ops
 
 
@@ -70,9 +73,11 @@ def gen_ngram(rng):
 def gen_skipgram(rng):
     fit = [doc(rng, 2, 8) for _ in range(rng.randint(3, 5))]
     # TODO widen after merge: transform infers the matrix shape from its input (D3), so every batch must contain the
-    # highest fitted column and must not end with an item without skip-grams: every sub-batch ends with the whole
-    # training corpus concatenated into one document ("top"), and items have >= 2 tokens
-    top = [t for d in fit for t in d]
+    # highest fitted column (the pair (t, t) of the largest token t) and must not end with an item without
+    # skip-grams: every sub-batch ends with the document "top" = all training tokens followed by t, t, and items
+    # have >= 2 tokens
+    tmax = max(t for d in fit for t in d)
+    top = [t for d in fit for t in d] + [tmax, tmax]
     items = [doc(rng, 2, 7) for _ in range(rng.randint(3, 5))] + [top]
     p = {"window_radius": rng.choice([1, 2, 3]), "kernel_function": rng.choice(["flat", "harmonic"])}
     fit = fit + [top]
@@ -169,9 +174,14 @@ def vecs(rng, v, d):
     return [[round(rng.gauss(0, 1), 3) for _ in range(d)] for _ in range(v)]
 
 
+WASS_COMBOS = [("LOT_exact", "spmatrix"), ("LOT_exact", "lil"), ("LOT_exact", "generator"), ("LOT_sinkhorn", "spmatrix"),
+               ("HeuristicLinearAlgebra", "spmatrix")]
+_wass_counter = [0]
+
+
 def gen_wasserstein(rng):
-    method = rng.choice(["LOT_exact", "LOT_exact", "LOT_sinkhorn", "HeuristicLinearAlgebra"])
-    inp = rng.choice(["spmatrix", "lil", "generator"]) if method == "LOT_exact" else "spmatrix"
+    method, inp = WASS_COMBOS[_wass_counter[0] % len(WASS_COMBOS)]     # every (method, input_method) in turn
+    _wass_counter[0] += 1
     v, d = rng.choice([5, 7]), rng.choice([2, 3])
     metric = rng.choice(["euclidean", "cosine"])
     p = {"method": method, "input_method": inp, "n_components": 3, "reference_size": rng.choice([3, 4]),
@@ -266,10 +276,27 @@ def gen_sliding(rng):
             "ops": make_ops(rng, len(items))}
 
 
+def sinkhorn_far_case(est):
+    """the recorded batched-Sinkhorn finding: item 0 (mass on the near points only) shares a chunk with item 1, which
+    has mass on a support point at distance 800 whose kernel column exp(-cost) underflows to 0"""
+    vectors = [[0.3, -0.2], [1.1, 0.4], [-0.7, 0.9], [0.2, 1.3], [-1.2, -0.5], [800.0, 0.0]]
+    fit = [[0.2, 0.1, 0.3, 0.2, 0.2, 0.0], [0.5, 0.1, 0.1, 0.2, 0.1, 0.0], [0.1, 0.4, 0.2, 0.1, 0.2, 0.0],
+           [0.3, 0.3, 0.1, 0.1, 0.2, 0.0], [0.2, 0.2, 0.2, 0.2, 0.2, 0.0], [0.1, 0.1, 0.5, 0.2, 0.1, 0.0]]
+    items = [[0.2, 0.3, 0.1, 0.4, 0.0, 0.0], [0.1, 0.0, 0.0, 0.0, 0.2, 0.7], [0.3, 0.3, 0.2, 0.1, 0.1, 0.0]]
+    p = {"n_components": 3, "reference_size": 3, "metric": "euclidean", "random_state": 0}
+    if est == "Wasserstein":
+        p.update({"method": "LOT_sinkhorn", "input_method": "spmatrix"})
+    ops = [{"tag": "full", "idx": [0, 1, 2]}, {"tag": "A", "idx": [0]}, {"tag": "B", "idx": [1, 2]},
+           {"tag": "block", "idx": [0, 1, 2], "block": 1, "chunk": 1}]
+    return {"est": est, "params": p, "data_kind": "spmatrix", "vectors": vectors, "fit": fit, "items": items, "ops": ops}
+
+
+CORPUS = [sinkhorn_far_case("Sinkhorn"), sinkhorn_far_case("Wasserstein")]
+
 GENS = [gen_ngram, gen_skipgram, gen_lz, gen_bpe, gen_hist, gen_kde, gen_distribution, gen_wasserstein, gen_sinkhorn,
         gen_approx, gen_infoweight, gen_rowdenoise, gen_cfc, gen_sliding]
-QUICK = {"Ngram": 6, "Skipgram": 4, "LZ": 8, "BPE": 9, "Histogram": 6, "KDE": 4, "Distribution": 3, "Wasserstein": 10,
-         "Sinkhorn": 3, "ApproxWasserstein": 2, "InfoWeight": 4, "RowDenoise": 4, "CFC": 3, "SlidingWindow": 4}
+QUICK = {"Ngram": 4, "Skipgram": 3, "LZ": 5, "BPE": 6, "Histogram": 4, "KDE": 3, "Distribution": 3, "Wasserstein": 5,
+         "Sinkhorn": 2, "ApproxWasserstein": 2, "InfoWeight": 3, "RowDenoise": 3, "CFC": 2, "SlidingWindow": 3}
 
 
 # ------------------------------------------------------------------ oracle
@@ -356,7 +383,8 @@ def run(ctx, replay=None):
         cases = [replay["case"]]
     else:
         mult = 1 if ctx.quick else 8
-        cases = []
+        _wass_counter[0] = 0
+        cases = list(CORPUS)
         for g in GENS:
             c0 = g(ctx.rng)
             cases.append(c0)
@@ -372,27 +400,41 @@ def run(ctx, replay=None):
                         "highest fitted column, Ngram without mask_string, BPE strings of length >= 2",
                         "thread schedules are not modelled; what is run is NUMBA_NUM_THREADS in {1, 16}"]
     from concurrent.futures import ThreadPoolExecutor
+    # the 16-thread run is slow on tiny inputs (thread launch per prange): it gets every third case of each estimator
+    # (every Wasserstein (method, input_method) combination) and, of the block / chunk variants, every third one
+    seen, in16 = {}, []
+    for c in cases:
+        seen[c["est"]] = seen.get(c["est"], 0) + 1
+        in16.append(seen[c["est"]] % 3 == 1 or c["est"] == "Wasserstein")      # every third case; all Wasserstein combos
+    cases16 = [trim16(c) for c, k in zip(cases, in16) if k]
+    pos16 = {i: j for j, i in enumerate(i for i, k in enumerate(in16) if k)}
     with ThreadPoolExecutor(max_workers=3) as ex:
         f1 = ex.submit(C.run_impl, "c12", cases, {"NUMBA_NUM_THREADS": "1"})
-        f16 = ex.submit(C.run_impl, "c12", cases, {"NUMBA_NUM_THREADS": "16"})
-        fm = ex.submit(model_eval, ctx, cases)
-        (r1, info1), (r16, info16), model_bad = f1.result(), f16.result(), fm.result()
+        f16 = ex.submit(C.run_impl, "c12", cases16, {"NUMBA_NUM_THREADS": "16"})
+        (r1, info1), (r16, info16) = f1.result(), f16.result()
     results = {}
+    ctx.coverage["modes"] = {"NUMBA_NUM_THREADS=1": {"wall_s": info1["wall_s"], "ops": sum(len(c["ops"]) for c in cases)},
+                             "NUMBA_NUM_THREADS=16": {"wall_s": info16["wall_s"], "ops": sum(len(c["ops"]) for c in cases16)}}
+    case_sets = {"1": cases, "16": cases16}
     for tag, res, info in (("1", r1, info1), ("16", r16, info16)):
-        if res is None or len(res) != len(cases):
+        cs = case_sets[tag]
+        if res is None or len(res) != len(cs):
             done = len(res) if res else 0
             ctx.report("implementation child (NUMBA_NUM_THREADS=%s) died (rc=%s) on case %d: %s"
                        % (tag, info["rc"], done, info["tail"][-400:]),
-                       {"stage": "impl-crash", "case": cases[done] if done < len(cases) else None, "threads": tag},
+                       {"stage": "impl-crash", "case": cs[done] if done < len(cs) else None, "threads": tag},
                        found_input=True)
-            res = (res or []) + [{"err": "crash"}] * (len(cases) - done)
+            res = (res or []) + [{"err": "crash"}] * (len(cs) - done)
         results[tag] = res
     n_oracle = 0
     for i, c in enumerate(cases):
         ctx.count_case({k: c[k] for k in ("est", "params", "items")}, nontrivial=len(c["items"]) >= 3,
                        kind="%s:%s" % (c["est"], c["params"].get("method", c["params"].get("return_type", c["data_kind"]))))
         for tag in ("1", "16"):
-            r = results[tag][i]
+            if tag == "16" and i not in pos16:
+                continue
+            r = results[tag][i if tag == "1" else pos16[i]]
+            cc = c if tag == "1" else cases16[pos16[i]]
             if "ok" not in r:
                 if r.get("err") != "crash":
                     ctx.report("%s: fit raised %s: %s (NUMBA_NUM_THREADS=%s)" % (c["est"], r.get("err"), r.get("msg"), tag),
@@ -402,12 +444,13 @@ def run(ctx, replay=None):
             ref = None
             if tag == "16" and "ok" in results["1"][i]:
                 ref = results["1"][i]["ok"][0]
-            bad = check_case(c, r["ok"], ref)
+            bad = check_case(cc, r["ok"], ref)
             for msg, op in bad[:1]:
                 key = finding_key(c, op)
                 ctx.report(msg + " (NUMBA_NUM_THREADS=%s)" % tag,
                            {"stage": "oracle", "case": c, "op": op, "threads": tag}, found_input=True, finding_key=key)
-    ctx.coverage["oracle"] = {"cases": n_oracle, "ops": sum(len(c["ops"]) for c in cases) * 2}
+    model_bad = model_eval(cases, results["1"])
+    ctx.coverage["oracle"] = {"cases": n_oracle, "ops": sum(len(c["ops"]) for c in cases) + sum(len(c["ops"]) for c in cases16)}
     ctx.coverage["correspondence"] = {"cases": model_bad[1], "disagreements": len(model_bad[0]),
                                       "model": "Model/K19_RowWise.v via vm_compute"}
     ctx.coverage["traces_validated_against_impl"] = model_bad[1]
@@ -419,9 +462,85 @@ def run(ctx, replay=None):
     return ctx.finish("proof")
 
 
+def far_support(c, op):
+    """the known batched-Sinkhorn defect: some item of the sub-batch has mass on a support point whose kernel column
+    exp(-cost) underflows (euclidean distance to the reference beyond ~700)"""
+    if c["est"] not in ("Sinkhorn", "Wasserstein") or c["params"].get("method", "LOT_sinkhorn") != "LOT_sinkhorn":
+        return False
+    if c["params"].get("metric") != "euclidean":
+        return False
+    far = [j for j, v in enumerate(c["vectors"]) if math.sqrt(sum(x * x for x in v)) > 700.0]
+    return any(c["items"][i][j] > 0 for i in op["idx"] for j in far) or \
+        any(c["items"][i][j] > 0 for i in range(len(c["items"])) for j in far)
+
+
+def trim16(c):
+    blk = [op for op in c["ops"] if op["tag"].startswith("block")]
+    keep = [op for op in c["ops"] if not op["tag"].startswith("block")] + blk[::3]
+    d = dict(c)
+    d["ops"] = keep
+    return d
+
+
 def finding_key(c, op):
+    if far_support(c, op):
+        return "sinkhorn-batch-nonfinite-break:far-support-point"
     return None
 
 
-def model_eval(ctx, cases):
-    return ([], 0)
+def coq_zl(xs):
+    return "[" + "; ".join("(%d)%%Z" % x for x in xs) + "]"
+
+
+def model_eval(cases, results):
+    """Correspondence of Model/K19_RowWise.v: (1) sizes of the successive per-block / per-chunk kernel calls of the
+    LOT family vs block_sizes / chunk_sizes, (2) unhashed LZ rows vs csr_rows (lz_transform ...), (3) BPE
+    'sequences' vs map bpe_encode.  Returns (disagreements, number of compared observations)."""
+    exprs, checks = [], []
+    for c, r in zip(cases, results):
+        if "ok" not in r:
+            continue
+        outs = r["ok"]
+        if c["est"] in ("Wasserstein", "Sinkhorn"):
+            method = c["params"].get("method", "LOT_sinkhorn")
+            if method == "HeuristicLinearAlgebra":
+                continue
+            for op, o in zip(c["ops"], outs):
+                if "calls" not in o:
+                    continue
+                n, b = len(op["idx"]), o["b"]
+                if method == "LOT_sinkhorn":
+                    exprs.append("chunk_sizes %d%%nat %d%%nat %d%%nat" % (b, o["c"], n))
+                    want = o["calls"]
+                else:
+                    exprs.append("block_sizes %d%%nat %d%%nat" % (b, n))
+                    # the generator path skips empty blocks; the spmatrix / lil paths call the kernel on them
+                    want = o["calls"]
+                    if c["data_kind"] == "generator":
+                        checks.append((c, "kernel call sizes (op %s)" % op["tag"], want, "nonzero"))
+                        continue
+                checks.append((c, "kernel call sizes (op %s)" % op["tag"], want, "eq"))
+        elif c["est"] == "LZ" and not r["extra"].get("hashed", True):
+            cd = "[" + "; ".join("(%s, (%d)%%Z)" % (coq_zl(k), v) for k, v in r["extra"]["coldict"]) + "]"
+            X = "[" + "; ".join(coq_zl([ord(ch) for ch in c["items"][i]]) for i in c["ops"][0]["idx"]) + "]"
+            ms = min(c["params"]["max_dict_size"], 1000)     # strings are far shorter: the cap value itself is irrelevant above
+            exprs.append("csr_rows (lz_transform (list Z) list_eqb (fun p => p) %s [] %d%%nat %s)" % (cd, ms, X))
+            rows = [sorted([j, int(v)] for j, v in enumerate(row) if v != 0) for row in outs[0]["rows"]]
+            checks.append((c, "LZ rows", rows, "lz"))
+        elif c["est"] == "BPE" and c["params"]["return_type"] == "sequences":
+            cl = "[" + "; ".join("((%d)%%Z, (%d)%%Z)" % (a, b) for a, b in r["extra"]["code_list"]) + "]"
+            X = "[" + "; ".join(coq_zl([ord(ch) for ch in c["items"][i]]) for i in c["ops"][0]["idx"]) + "]"
+            exprs.append("map (bpe_encode %s (%d)%%Z) %s" % (cl, r["extra"]["mcc"], X))
+            checks.append((c, "BPE sequences", outs[0]["rows"], "eq"))
+    vals = C.coq_eval_sharded("C12", HEADER, exprs, shard=120)
+    bad = []
+    for (c, what, want, mode), got in zip(checks, vals):
+        if mode == "nonzero":
+            got = [x for x in got if x != 0]
+            want = [x for x in want if x != 0]
+        elif mode == "lz":
+            got = [sorted([int(a), int(b)] for a, b in row) for row in got]
+        if got != want:
+            bad.append(("%s %s: implementation %s, model %s" % (c["est"], what, str(want)[:200], str(got)[:200]),
+                        {"case": c, "impl": want, "model": got}))
+    return bad, len(checks)
